@@ -293,6 +293,7 @@ package mcp
 //@   private[C07] responses writers close, sendRequestInternal
 //@   invariant self.responses != nil
 //@   invariant[C07 endpoint-latch-closed-only-after-the-flag-is-set] self.endpointChan != nil && (!self.endpointReceived ==> !closed(self.endpointChan))
+//@   invariant[C07 the-endpoint-flag-is-set-only-with-the-waiters-released] self.endpointReceived ==> closed(self.endpointChan)
 //@ type sseClientTransport
 //@   guarded[C07] responses by responsesMu
 //@   lockinv[C07 pending-channels-are-open-while-registered] responsesMu: forall k string :: (k in self.responses) ==> !closed(self.responses[k])
@@ -2013,6 +2014,55 @@ package mcp
 //@   loop 1 step[C07 a-blank-line-hands-the-pending-event-to-the-dispatcher] athead(eventType) != "" && athead(eventData) != "" && strings.TrimRight(lastline, "\r\n") == "" ==> legacyevents == athead(legacyevents) + 1
 //@ func streamableHTTPClientTransport.handleGetSSEEvents
 //@   loop 1 step[C07 a-blank-line-hands-the-pending-event-to-the-dispatcher] athead(eventData) != "" && scanline(athead(rdprog) + 1) == "" ==> getevents == athead(getevents) + 1
+//@
+// C02 / C03 — the content builders produce what they were given under the member names of the protocol
+//@ func NewTextContent
+//@   pure
+//@   ensures[C02,C03 text-content-built-as-given] result.Type == "text" && result.Text == text
+//@ func NewImageContent
+//@   pure
+//@   ensures[C02,C03 image-content-built-as-given] result.Type == "image" && result.Data == data && result.MimeType == mimeType
+//@ func NewAudioContent
+//@   pure
+//@   ensures[C02,C03 audio-content-built-as-given] result.Type == "audio" && result.Data == data && result.MimeType == mimeType
+//@ func NewEmbeddedResource
+//@   pure
+//@   ensures[C02,C03 embedded-resource-built-under-a-tag-the-decoder-accepts] (result.Type == "resource" || result.Type == "embedded_resource") && result.Resource == resource
+//@ func NewTextResult
+//@   pure
+//@   ensures[C02,C03 text-result-is-one-text-item-and-no-error] result != nil && !result.IsError && len(result.Content) == 1 && istype(result.Content[0], TextContent) && result.Content[0].(TextContent).Text == text && result.Content[0].(TextContent).Type == "text"
+//@ func NewErrorResult
+//@   pure
+//@   ensures[C02,C03 error-result-is-one-text-item-flagged-as-error] result != nil && result.IsError && len(result.Content) == 1 && istype(result.Content[0], TextContent) && result.Content[0].(TextContent).Text == text && result.Content[0].(TextContent).Type == "text"
+//@
+// C02 — the descriptor options install what they were given
+//@ func WithDescription$1
+//@   ensures[C02 the-description-option-installs-the-given-text] t.Description == description
+//@ func WithToolAnnotations$1
+//@   ensures[C02 the-annotations-option-installs-the-given-annotations] t.Annotations == annotations
+//@
+// C12 — a registration lengthens the order list by one exactly when its key is new (a listing shows every key once)
+//@ func resourceManager.registerResource
+//@   ensures[C12 the-order-list-grows-exactly-when-the-key-is-new] resource != nil && resource.URI != "" ==> len(m.resourcesOrder) == atlock(len(m.resourcesOrder)) + (atlock(resource.URI in m.resources) ? 0 : 1)
+//@ func resourceManager.registerResources
+//@   ensures[C12 the-order-list-grows-exactly-when-the-key-is-new] resource != nil && resource.URI != "" ==> len(m.resourcesOrder) == atlock(len(m.resourcesOrder)) + (atlock(resource.URI in m.resources) ? 0 : 1)
+//@   ensures[C12 registration-installs-a-new-entry] resource != nil && resource.URI != "" ==> (resource.URI in m.resources) && m.resources[resource.URI] != nil && isfresh(m.resources[resource.URI]) && m.resources[resource.URI].Resource == resource
+//@ func promptManager.registerPrompt
+//@   ensures[C12 the-order-list-grows-exactly-when-the-key-is-new] prompt != nil && prompt.Name != "" ==> len(m.promptsOrder) == atlock(len(m.promptsOrder)) + (atlock(prompt.Name in m.prompts) ? 0 : 1)
+//@ func toolManager.registerTool
+//@   ensures[C12 the-order-list-grows-exactly-when-the-key-is-new] tool != nil && tool.Name != "" ==> len(m.toolsOrder) == atlock(len(m.toolsOrder)) + (atlock(tool.Name in m.tools) ? 0 : 1)
+//@
+// C11 — replacing a listening stream never waits for the old stream's writers (a write stalled on a dead connection is
+// the usual reason for the reconnect): the old stream is cancelled without its write lock
+//@ func httpServerHandler.handleGet
+//@   before call cancelFunc#1 assert[C11 a-replaced-stream-is-cancelled-without-waiting-for-its-writers] held(existingConn.writeLock) == 0
+//@
+// C03 / C02 — the structured content of a typed result is the handler's output itself (an output that cannot be
+// encoded must fail where the response is encoded, not be replaced before)
+//@ func NewTypedToolHandler$1
+//@   before call return#3 assert[C03,C02 the-structured-content-of-a-typed-result-is-the-handlers-output] ret0 != nil && !ret0.IsError && ret0.StructuredContent == asany(output)
+//@ func NewStructuredToolHandler$1
+//@   before call return#2 assert[C03,C02 the-structured-content-of-a-typed-result-is-the-handlers-output] ret0 != nil && !ret0.IsError && ret0.StructuredContent == asany(output)
 //@
 // C09 — the stdio client's frames go out through its encoder only (one Encode per message)
 //@ sweepscope[C09] kinds=framedoutput files=transport_stdio.go,stdio_client.go
